@@ -124,6 +124,55 @@ def run_scenario(case):
     return {"id": case["id"], "events": events}
 
 
+XPROC_SCRIPT = r"""
+import hashlib, sys, warnings
+warnings.filterwarnings("ignore")
+sys.path.insert(0, %(verif)r)
+from harness import jk
+jk.load()
+import numpy as np
+from harness.checks import c02, c10
+g = c02._setup()
+import thejoker as tj
+seed = %(seed)d
+out = []
+smp = g["prior"].sample(size=7, rng=np.random.default_rng(seed), return_logprobs=True)
+out.append(c10._hash_result(smp)[0])
+smp2 = g["prior"].sample(size=5, rng=np.random.default_rng(seed), generate_linear=True)
+out.append(c10._hash_result(smp2)[0])
+jk_ = tj.TheJoker(g["prior"], rng=np.random.default_rng(seed))
+res = jk_.rejection_sample(g["data"], 40, n_linear_samples=2)
+out.append(c10._hash_result(res)[0])
+print("XPROC " + " ".join(out))
+"""
+
+
+def cross_process_trace(ctx, seed):
+    """equal seed and inputs in SEPARATE interpreter processes whose string hashing differs (PYTHONHASHSEED 0, 1, 2): prior.sample,
+    prior.sample(generate_linear=True) and rejection_sample with prior samples requested by count must be bit-identical"""
+    import subprocess
+    import sys
+    procs = []
+    for hs in (0, 1, 2):
+        env = dict(os.environ, PYTHONHASHSEED=str(hs))
+        procs.append(subprocess.Popen([sys.executable, "-c", XPROC_SCRIPT % {"verif": core.VERIF, "seed": seed}], env=env,
+                                      stdout=subprocess.PIPE, stderr=subprocess.PIPE, text=True))
+    outs = []
+    for p in procs:
+        o, e = p.communicate(timeout=1200)
+        line = [l for l in o.splitlines() if l.startswith("XPROC ")]
+        if p.returncode != 0 or not line:
+            raise core.MachineryError("cross-process run failed: %s" % (e[-600:],))
+        outs.append(line[0].split()[1:])
+    events = []
+    for k, (run, hs) in enumerate(zip(("A", "H", "H"), outs)):
+        events.append({"ev": "Run", "run": run})
+        for ci, h in enumerate(hs):
+            events.append({"ev": "Output", "hash": h, "hashA": outs[0][ci], "lin": [], "linA": [], "call": ci,
+                           "what": ["prior.sample", "prior.sample+linear", "rejection/count"][ci], "raised": False})
+    return {"id": "xproc-%d" % seed, "events": events}
+
+
 def gen_cases(ctx, rnd, count, maxn, multipool=0):
     cases = []
     for j in range(count):
@@ -163,12 +212,18 @@ def run(ctx, selftest=False):
     rnd = random.Random(ctx.seed * 48271 + 10)
     cases = gen_cases(ctx, rnd, 64 if quick else 600, 40 if quick else 300)
     traces = core.pmap(run_scenario, cases, chunksize=1)
+    xp = [cross_process_trace(ctx, 1000 + ctx.seed)] + ([] if quick else [cross_process_trace(ctx, 2000 + ctx.seed)])
+    ctx.notes["cross_process_scenarios"] = len(xp)
+    for t in xp:
+        ctx.count()
+        ctx.nontrivial(t["id"])
     if not quick:
         traces += [run_scenario(c) for c in gen_cases(ctx, rnd, 10, 40, multipool=2)]
     for c, t in zip(cases, traces):
         ctx.count()
         if any(e["ev"] == "Draw" for e in t["events"]):
             ctx.nontrivial([sorted(x.items()) for x in c["calls"]])
+    traces += xp
     ctx.sample({"id": traces[0]["id"], "events": traces[0]["events"][:10]})
     verdicts = ctx.validate("StreamsTrace", traces, timeout=3000)
     ctx.judge(traces, verdicts, families=FAMILIES)
